@@ -272,11 +272,21 @@ fn dryoc_mlock(data: &[u8]) -> Result<(), std::io::Error> {
             }
         }
 
-        use libc::{c_void, mlock as c_mlock};
+        use libc::{c_void, mlock as c_mlock, munlock as c_munlock};
         let ret = unsafe { c_mlock(data.as_ptr() as *const c_void, data.len()) };
         match ret {
             0 => Ok(()),
-            _ => Err(std::io::Error::last_os_error()),
+            _ => {
+                let err = std::io::Error::last_os_error();
+                // a refused request can still leave the range marked as locked
+                // (Linux does so for pages it cannot populate, e.g. a no-access
+                // region); the caller treats the region as unlocked on error,
+                // so nothing would ever unlock it
+                unsafe {
+                    c_munlock(data.as_ptr() as *const c_void, data.len());
+                }
+                Err(err)
+            }
         }
     }
     #[cfg(windows)]
